@@ -25,6 +25,7 @@ ADV_MULTI = ["'''", '"""', "\\n", "\r\n", "  ", "x = 1", "#!"]
 CALL_FIELDS = {
     # class -> (fields, defaults {field: expr})
     "DC": (("a", "b", "c"), {"b": "5", "c": "[]"}),
+    "DC2": (("a", "b", "c"), {"b": "5", "c": "[]"}),
     "AT": (("a", "b", "c"), {"b": "7", "c": "[]"}),
     "PM": (("a", "b", "c"), {"b": "'x'", "c": "[]"}),
     "NT": (("a", "b", "c"), {"c": "3"}),
